@@ -20,6 +20,7 @@ def gen_case(rng, tier):
     klass = rng.choice(["Discretizer", "BinaryCarver", "BinaryCarver", "ContinuousCarver"])
     y = [rng.randint(0, 1) for _ in range(n)] if klass != "ContinuousCarver" else [rng.randint(0, 30) for _ in range(n)]
     names = rng.sample(["alpha", "beta", "gamma", "delta", "x1", "x2", "zeta", "Aa", "BB", "k", "m9", "omega"], nf)
+    nan_everywhere = rng.random() < 0.35   # several features with missing values (per-feature NaN flags)
     for f in names:
         t = rng.choice(["quant", "quant", "categ", "ordinal", "idlike"])
         if t == "idlike" or (nf >= 3 and f == names[-1] and rng.random() < 0.3) or (
@@ -59,7 +60,7 @@ def gen_case(rng, tier):
                 if not all(isinstance(v, str) for v in vals):
                     types[f] = "categ"
                     orders.pop(f)
-        if rng.random() < 0.4:
+        if nan_everywhere or rng.random() < 0.4:
             for i in rng.sample(range(n), n // 10):
                 col[i] = NAN
         X[f] = encs(col)
@@ -76,7 +77,7 @@ def gen_case(rng, tier):
             X[f] = encs(col)
     return {"klass": klass, "types": types, "X": X, "orders": orders, "y": y, "names": names,
             "min_freq": rng.choice([0.1, 0.15, 0.2, 0.06, 0.13, 0.17]), "max_n_mod": rng.randint(2, 5),
-            "dropna": rng.random() < 0.6, "output_dtype": rng.choice(["float", "str"]),
+            "dropna": rng.random() < (0.3 if nan_everywhere else 0.6), "output_dtype": rng.choice(["float", "str"]),
             "sort_by": rng.choice(["tschuprowt", "cramerv"]), "seed": rng.randrange(10 ** 6),
             "real_pools": tier == "thorough" or rng.random() < 0.35}
 
@@ -146,6 +147,11 @@ class C10(Prop):
         base = out["runs"][0]
         if base.get("fit") == "worker_failed":
             return False, "worker failed: " + base.get("error", "")
+        ae = base.get("after_edit") or {}
+        for f, labs in (ae.get("labels") or {}).items():
+            if base.get("per", {}).get(f) is not None and base["per"][f]["labels"] != labs:
+                return False, (f"grouping the missing values of feature {ae['edited']} (update_discretizer) changed the "
+                               f"transform output of feature {f}")
         for r in out["runs"][1:]:
             name = r["config"]["name"]
             if r.get("fit") != base.get("fit"):
